@@ -5,7 +5,7 @@
    Oracles (validated, never trusted): the matching scipy returned for a MultiSetEdit and the hash-order
    in which FixedKeyDictNode._child_edits emits its removals, keyed by the positions of the two nodes. *)
 From Coq Require Import ZArith List Bool Lia.
-Require Import GT.PyBase GT.Data GT.ScriptSpec GT.EdEngine GT.LevModel GT.EdParams.
+Require Import GT.PyBase GT.Data GT.ScriptSpec GT.EdEngine GT.LevModel GT.EdTypes GTgen.EdGen GT.EdParams.
 Import ListNotations.
 Open Scope Z_scope.
 
@@ -31,8 +31,6 @@ Fixpoint lookup {V} (pa pb : path) (l : list (path * path * V)) : option V :=
   | (qa, qb, v) :: l' => if path_eqb pa qa && path_eqb pb qb then Some v else lookup pa pb l'
   end.
 
-Definition replace_cost (a b : tree) : Z := Z.max (size a) (size b) + 1.       (* Replace.__init__ *)
-Definition remove_cost (x : tree) (penalty : Z) : Z := size x + penalty.      (* Remove/Insert.__init__ *)
 
 (* f stays outside the fixpoint so that the guard checker sees through it (as for List.map) *)
 Definition mapi {A B} (f : nat -> A -> B) (l : list A) : list B :=
@@ -94,11 +92,13 @@ Definition leaf_script (x : leaf) (a b : tree) : res :=
       | KStr => if str_eqb (ltext x) (ltext y) then OK (EMatch 0)
                 else if Nat.eqb (length (ltext x)) 1 && Nat.eqb (length (ltext y)) 1 then OK (EMatch 1)
                 else let '(c, ops) := str_script (ltext x) (ltext y) in OK (EStr c ops)
-      | _ => OK (EMatch (lev (ltext x) (ltext y)))
+      | _ => OK (EMatch (leaf_match_cost x y))
       end
-  | _, Leaf y => OK (EMatch (lev (ltext x) (ltext y)))
+  | _, Leaf y => OK (EMatch (leaf_match_cost x y))
   | _, _ => OK (EReplace (replace_cost a b))
   end.
+
+Definition dummy : tree := Leaf {| lk := KNull; ltext := []; lnum := 0; lexp := 0 |}.
 
 (* ---------------------------------------------------------------- lists *)
 Definition fixed_len_subs (cs ds : list tree) (M : list (list res)) : option (list sub) :=
@@ -110,25 +110,22 @@ Definition fixed_len_subs (cs ds : list tree) (M : list (list res)) : option (li
   | None => None
   | Some ps =>
       let rems := if Nat.ltb m n
-                  then map (fun i => SRem i (remove_cost (nth i cs (Leaf {| lk := KNull; ltext := []; lnum := 0; lexp := 0 |})) 1))
-                           (seq (surplus_start n m) (n - surplus_start n m)) else [] in
+                  then map (fun i => SRem i (remove_cost (nth i cs dummy) 1)) (seq (remove_from_pos n m) (n - remove_from_pos n m))
+                  else [] in
       let inss := if Nat.ltb n m
-                  then map (fun j => SIns j (remove_cost (nth j ds (Leaf {| lk := KNull; ltext := []; lnum := 0; lexp := 0 |})) 1))
-                           (seq (surplus_start m n) (m - surplus_start m n)) else [] in
+                  then map (fun j => SIns j (insert_cost (nth j ds dummy) 1)) (seq (insert_from_pos n m) (m - insert_from_pos n m))
+                  else [] in
       Some (ps ++ rems ++ inss)
   end.
 
-Definition dummy : tree := Leaf {| lk := KNull; ltext := []; lnum := 0; lexp := 0 |}.
-
-Definition edit_dist_script (cs ds : list tree) (M : list (list res)) : res :=
-  let penalty := if all_leaves cs && all_leaves ds then 0 else 1 in
+Definition edit_dist_script (penalty : Z) (cs ds : list tree) (M : list (list res)) : res :=
   let '(p, q) := trim node_eqb cs ds in
   let cs' := middle p q cs in
   let ds' := middle p q ds in
   let n := length cs in
   let m := length ds in
   let rc := map (fun c => remove_cost c penalty) cs' in
-  let ic := map (fun d => remove_cost d penalty) ds' in
+  let ic := map (fun d => insert_cost d penalty) ds' in
   let cells := map (fun r => map (fun c => mget M (p + c) (p + r)) (seq 0 (length cs'))) (seq 0 (length ds')) in
   match all_some (map (fun row => all_some (map (fun x => match x with Some r => res_cost r | None => None end) row)) cells) with
   | None => Err ENoOracle
@@ -201,7 +198,7 @@ Definition multiset_script (O : oracle) (pa pb : path) (amk : bool) (cs ds : lis
           let rem_left := filter (fun i => negb (nat_in i (map fst mt))) R in
           let ins_left := filter (fun j => negb (nat_in j (map snd mt))) I in
           let rcost := fun i => remove_cost (nth i cs dummy) 1 in
-          let icost := fun j => remove_cost (nth j ds dummy) 1 in
+          let icost := fun j => insert_cost (nth j ds dummy) 1 in
           let own := zsum (map sub_cost mt_subs) + zsum (map sub_cost pre_subs) +
                      multiset_leftover_cost (map rcost R) (map icost I) (map rcost rem_left) (map icost ins_left) in
           OK (EComp KMultiSet own
@@ -237,7 +234,7 @@ Definition fixed_dict_script (O : oracle) (pa pb : path) (a b : tree) (cs ds : l
   match order, all_some (map get shared) with
   | Some ord, Some sh =>
       let subs := sh ++ map (fun i => SRem i (remove_cost (nth i cs dummy) 1)) ord ++
-                  map (fun j => SIns j (remove_cost (nth j ds dummy) 1)) inserted in
+                  map (fun j => SIns j (insert_cost (nth j ds dummy) 1)) inserted in
       let total := zsum (map sub_cost subs) in
       if total <=? size a + 1 + size b then OK (EComp KFixedDict total subs) else Err ECap
   | None, _ => match lookup pa pb (o_order O) with None => Err ENoOracle | Some _ => Err EBadOracle end
@@ -249,24 +246,27 @@ Fixpoint script (O : oracle) (pa pb : path) (a b : tree) {struct a} : res :=
   match a with
   | Leaf x => leaf_script x a b
   | Lst ale alsl cs =>
-      match b with
-      | Lst _ _ ds =>
-          if (fix go (xs ys : list tree) : bool :=
-                match xs, ys with
-                | [], [] => true
-                | x :: xs', y :: ys' => node_eqb x y && go xs' ys'
-                | _, _ => false
-                end) cs ds
-          then OK (EMatch 0)
-          else
-            let M := mapi (fun i c => mapi (fun j d => script O (pa ++ [i]) (pb ++ [j]) c d) ds) cs in
-            if list_dispatch_fixed ale alsl (zlen cs) (zlen ds)
-            then match fixed_len_subs cs ds M with
-                 | Some subs => OK (EComp KFixedLen (zsum (map sub_cost subs)) subs)
-                 | None => Err ENoOracle
-                 end
-            else edit_dist_script cs ds M
-      | _ => OK (EReplace (replace_cost a b))
+      let ds := match b with Lst _ _ ds => ds | _ => [] end in
+      let children_eq :=
+          (fix go (xs ys : list tree) : bool :=
+             match xs, ys with
+             | [], [] => true
+             | x :: xs', y :: ys' => node_eqb x y && go xs' ys'
+             | _, _ => false
+             end) cs ds in
+      match list_dispatch_gen (match b with Lst _ _ _ => true | _ => false end) children_eq ale alsl
+                              (zlen cs) (zlen ds) (all_leaves cs) (all_leaves ds) with
+      | LMatch0 => OK (EMatch 0)
+      | LReplace => OK (EReplace (replace_cost a b))
+      | LFixed =>
+          let M := mapi (fun i c => mapi (fun j d => script O (pa ++ [i]) (pb ++ [j]) c d) ds) cs in
+          match fixed_len_subs cs ds M with
+          | Some subs => OK (EComp KFixedLen (zsum (map sub_cost subs)) subs)
+          | None => Err ENoOracle
+          end
+      | LEditDist penalty =>
+          let M := mapi (fun i c => mapi (fun j d => script O (pa ++ [i]) (pb ++ [j]) c d) ds) cs in
+          edit_dist_script penalty cs ds M
       end
   | Kvp ake k v =>
       match b with
